@@ -7,7 +7,7 @@
    c03_budget_out_of_order_refuted (budget 2, stamps out of order) and
    c03_budget_stalled_caller_refuted (budget 1, stall longer than SleepWindow);
    family `probe` replays both on the real circuit.  Statements only. *)
-From CV Require Import Base.Prelude Seq.RollingCounter Seq.TimedCheck Seq.Logic Seq.Circuit Seq.CircuitSpec Seq.LogicSpec Seq.C03_Proofs.
+From CV Require Import Base.Prelude Seq.RollingCounter Seq.TimedCheck Seq.Logic Seq.Circuit Seq.CircuitSpec Seq.LogicSpec Seq.C03_Proofs Seq.C03_Stall_Proofs.
 
 Section C03.
 Variable st : static.
@@ -84,6 +84,20 @@ Theorem c03_budget_out_of_order_refuted :
      TOBool false None; TOBool true None; TOBool true (Some 10)].
 Proof. vm_compute. reflexivity. Qed.
 
+(* ... and how much of the budget clause survives a stalled caller: at the gate itself (the closer's Allow is this
+   Check, c03_closer_fed_by_observations), for every history of arrivals (clock at the gate, operation) in which
+   nobody was stalled for longer than delta between its clock reading and the gate, any max(1, budget) + 1
+   consecutive admissions lie at least sleep - delta apart in gate-arrival time.  delta = 0: stamps in clock order. *)
+Theorem c03_budget_bounded_stall : forall sleep budget delta arrivals start,
+  Forall (op_ok delta) arrivals -> mono start arrivals ->
+  spaced sleep budget delta (admitted_at' sleep budget arrivals).
+Proof. exact budget_bounded_stall. Qed.
+(* the two D3 witnesses are stalls of 9 and 11 against a sleep of 10: outside the bound, as they must be *)
+Example c03_bounded_stall_example :
+  Forall (op_ok 1) [(10, TSleepStart 10); (20, TFire 0); (21, TCheck 20); (21, TFire 1); (31, TCheck 30)] /\
+  admitted_at' 10 1 [(10, TSleepStart 10); (20, TFire 0); (21, TCheck 20); (21, TFire 1); (31, TCheck 30)] = [21; 31].
+Proof. split; [repeat constructor; cbn; lia | vm_compute; reflexivity]. Qed.
+
 (* D3 needs no budget above 1: a caller that read the clock at 20 is stalled until the clock shows 31;
    admitted on its stale stamp it re-arms the window to 30, so a caller reading 31 is admitted at once.
    Pairs are (clock when the call reaches the gate, the call): two admissions at the same instant. *)
@@ -102,5 +116,7 @@ Print Assumptions c03_closer_fed_by_observations.
 Print Assumptions c03_forced_open_stays.
 Print Assumptions c03_close_circuit.
 Print Assumptions c03_then_admits_all.
+Print Assumptions c03_budget_bounded_stall.
+Print Assumptions c03_bounded_stall_example.
 Print Assumptions c03_budget_out_of_order_refuted.
 Print Assumptions c03_budget_stalled_caller_refuted.
